@@ -693,6 +693,20 @@ def floorflush(ctx: Any) -> List[Ob]:
                 hit_all = bool(oc) and all('MARK' in t for t in oc)
                 want = age > 1000 and not in_answers and not lapsing
                 obs.append(ob(R, g, f'age={age}ms in_datagram={in_answers} {"runs out within the second" if lapsing else "more than a second to live"}', f'marked iff older than 1000 ms, not repeated in the datagram and not running out within the second anyway (expected {want}): the mark only ever shortens a lifetime', (hit_all if want else not hit), f'mark reachable: {hit}, on every path: {hit_all}; tests the record does not decide: {und_m}' + ('; a record whose TTL has elapsed (not purged yet) gets a new lease of one second from every flush' if hit and lapsing else '')))
+    # `runs out within the second anyway` is asked of the record for the moment the mark would take effect: now + 1000 ms
+    from sa import lf as _lf
+
+    laps = [c for c in ast.walk(g.node) if isinstance(c, ast.Call) and call_name(c) in ('is_expired', 'get_expiration_time', 'get_remaining_ttl') and c.args]
+    for c in laps:
+        if call_name(c) != 'is_expired':
+            continue
+        try:
+            pl_ = _lf.poly(prog, g.module, c.args[0], lambda x: 'now' if isinstance(x, ast.Name) and x.id == now_param else None)
+            okl_ = pl_ == _lf.parse_poly('now + 1000')
+            whyl_ = _lf.p_str(pl_)
+        except _lf.NotLinear as ex_:
+            okl_, whyl_ = False, str(ex_)
+        obs.append(ob(R, g, c, 'the test that spares a record which lapses anyway looks one second ahead (now + 1000 ms), the moment the mark would expire it', okl_, whyl_))
     # the records considered are those of the same name, type and class
     sel = [c for c in ast.walk(g.node) if isinstance(c, ast.Call) and call_name(c) == 'async_all_by_details']
     loops = [n for n in ast.walk(g.node) if isinstance(n, ast.For)]
